@@ -263,11 +263,19 @@ TAGS = ['t1', 't2']
 KEYS = ['a', 'b', 'w', 0, 1]
 
 
-def nnx_filter_strategy():
+# type filters that name the leaf's own container class instead of the
+# Variable class it stands for (only where the leaves are handed to the
+# predicate as they are: States of Variables / VariableStates / arrays)
+CONTAINER_TYPES = {'VariableState': nnx.VariableState, 'Array': jax.Array}
+
+
+def nnx_filter_strategy(container_types=False):
   key = st.sampled_from(KEYS)
   path = st.lists(key, min_size=1, max_size=3)
   base = st.one_of(
-      st.sampled_from(sorted(VTYPES)).map(lambda n: {'t': 'type', 'v': n}),
+      st.sampled_from(sorted(VTYPES) + (sorted(CONTAINER_TYPES) * 2
+                                        if container_types else [])).map(
+          lambda n: {'t': 'type', 'v': n}),
       st.sampled_from(TAGS).map(lambda n: {'t': 'tag', 'v': n}),
       key.map(lambda k: {'t': 'pathcontains', 'v': k}),
       st.lists(path, max_size=3).map(lambda ps: {'t': 'pathin', 'v': ps}),
@@ -286,7 +294,7 @@ def nnx_filter_strategy():
 def nnx_build(f):
   t = f['t']
   if t == 'type':
-    return VTYPES[f['v']]
+    return VTYPES.get(f['v']) or CONTAINER_TYPES[f['v']]
   if t == 'tag':
     return f['v']
   if t == 'pathcontains':
@@ -318,6 +326,10 @@ def nnx_ref(f, path, leaf):
   """Reference predicate. leaf = {'vt': type name|None, 'tag': str|None}."""
   t = f['t']
   if t == 'type':
+    if f['v'] == 'VariableState':   # instance of the filter type itself
+      return leaf['vt'] is not None and leaf['form'] == 'state'
+    if f['v'] == 'Array':
+      return leaf['vt'] is None
     return leaf['vt'] is not None and f['v'] in SUBCLASS[leaf['vt']]
   if t == 'tag':
     return leaf['tag'] == f['v']
@@ -372,7 +384,7 @@ def _is_last_ok(fls):
 
 @clause('nnx_predicates',
         strategy=lambda: st.tuples(
-            nnx_filter_strategy(),
+            nnx_filter_strategy(container_types=True),
             st.lists(st.tuples(st.lists(st.sampled_from(KEYS), min_size=1,
                                         max_size=3), leaf_strategy()),
                      min_size=1, max_size=4)),
@@ -415,7 +427,7 @@ def _state_case():
       paths.flatmap(lambda ps: st.tuples(
           st.just([list(p) for p in ps]),
           st.lists(leaf_strategy(), min_size=len(ps), max_size=len(ps)))),
-      st.lists(nnx_filter_strategy(), min_size=1, max_size=4),
+      st.lists(nnx_filter_strategy(container_types=True), min_size=1, max_size=4),
       st.booleans())
 
 
